@@ -215,11 +215,14 @@ def call_contract(self, fc, recv, args, kwargs, line, label):
     # frame + postconditions
     self.apply_modifies(fc, pre_env)
     res = None
+    lazy = self.keys_of_names(fc.reads_lazily) if fc.reads_lazily else None
     if fc.yields is not None:
         res = fresh_v("ys_" + fc.name.strip("_"), SeqS(fc.yields))
+        res.lazy = lazy
         self.wf(res)
     elif fc.returns is not None and fc.returns != NONE:
         res = fresh_v("r_" + fc.name.strip("_"), fc.returns)
+        res.lazy = lazy
         self.wf(res)
     else:
         res = E.none_v()
@@ -241,9 +244,9 @@ def apply_modifies(self, fc, pre_env):
     whole, cells = set(), {}
     for loc in fc.modifies_l:
         self._mod_loc(loc, pre_env, whole, cells)
-    for key in whole:
+    for key in sorted(whole):
         self._uniq_heap(key)
-    for key, refs in cells.items():
+    for key, refs in sorted(cells.items(), key=lambda kv: kv[0]):
         sort = self.eng.all_heap_keys()[key]
         for r in refs:
             self.havoc_cell(key, r, sort)
@@ -563,8 +566,8 @@ def spec_call(self, n, env):
         if env.old is None:
             raise E.StaleContract("old() used where there is no pre-state")
         o = env.old
-        sub = E.Env(dict(o.locals), o.heap, o.alloc, True, o, None, None, dict(env.binders))
-        # ghost locals and binders stay visible inside old()
+        sub = E.Env(dict(o.locals), o.heap, o.alloc, True, o, env.result, None, dict(env.binders))
+        # `result`, ghost locals and binders stay visible inside old() (they are values, not state)
         for k, v in env.locals.items():
             if k.startswith("g_") or k.startswith("_i") or k.startswith("_seq"):
                 sub.locals.setdefault(k, v)
@@ -678,10 +681,11 @@ def apply_macro(self, name, args, env):
     params, expr = self.unit.macros[name]
     if len(params) != len(args):
         raise E.StaleContract("macro %s expects %d arguments" % (name, len(params)))
-    sub = E.Env(dict(zip(params, args)), env.heap, env.alloc, True, None, env.result, env.yielded, dict(env.binders))
+    binders = {k: v for k, v in env.binders.items() if k not in params}      # parameters shadow outer bound variables
+    sub = E.Env(dict(zip(params, args)), env.heap, env.alloc, True, None, env.result, env.yielded, binders)
     if env.old is not None:
         o = env.old
-        sub.old = E.Env(dict(zip(params, args)), o.heap, o.alloc, True, None, None, None, dict(env.binders))
+        sub.old = E.Env(dict(zip(params, args)), o.heap, o.alloc, True, None, None, None, dict(binders))
         sub.old.old = sub.old
     node = ast.parse(expr.strip(), mode="eval").body
     return self.ev(node, sub)
